@@ -46,7 +46,7 @@ func sxLoad(path string) (string, error) {
 	if err := json.Unmarshal(b, &rf); err != nil {
 		return "", err
 	}
-	sxInputs, sxPos, sxParams, sxTrace, sxKnownHit = rf.Inputs, 0, rf.Params, nil, nil
+	sxInputs, sxPos, sxParams, sxTrace, sxKnownHit, sxDbg = rf.Inputs, 0, rf.Params, nil, nil, nil
 	return rf.Harness, nil
 }
 
@@ -170,6 +170,11 @@ func sxParam(name string, def int) int {
 	}
 	return def
 }
+
+// sxDebug: native-only note shown by `gosx replay` (never compared).
+func sxDebug(tag string, v any) { sxDbg = append(sxDbg, fmt.Sprintf("%s=%v", tag, v)) }
+
+var sxDbg []string
 
 func sxOpt(name string, on bool) {}
 func sxNote(s string)            {}
